@@ -154,7 +154,7 @@ def body(cfg, ctx):
 
 
 def shards(tier, seed):
-    n = 250 if tier == 'quick' else 6000
+    n = 250 if tier == 'quick' else 12000
     return [{'n': n} for _ in range(16)]
 
 
